@@ -31,6 +31,9 @@ for sid in ids:
         m = re.search(r"(C\d+) quick: (\w+) in", line)
         if m:
             got[m.group(1)] = m.group(2)
+        m = re.match(r"VIOLATION property=(C\d+) ", line)
+        if m and got.get(m.group(1)) in (None, "no result"):
+            got[m.group(1)] = "VIOLATION"
     demo = re.search(r"demo_with_change_exit=(\d+)", log)
     ok = "PATCH-FAILED" not in log and demo and demo.group(1) != "0" and all(got.get(c) == "VIOLATION" for c in want)
     if not ok:
